@@ -194,11 +194,14 @@ def explorer_loading(chk):
                 pth = os.path.join(root, rel)
                 os.makedirs(os.path.dirname(pth), exist_ok=True)
                 open(pth, "w").write(text)
+            import select_util  # pylint: disable=import-outside-toplevel
+
+            genv = dict(os.environ, **select_util.GIT_ENV)
             for argv in (["init", "-q", "-b", "main"], ["config", "user.email", "v@example.org"], ["config", "user.name", "v"], ["add", "-A"], ["commit", "-q", "-m", "c0"]):
-                subprocess.run(["git"] + argv, cwd=repo, check=True, capture_output=True)
+                subprocess.run(["git"] + argv, cwd=repo, check=True, capture_output=True, env=genv)
             drv = os.path.join(base, "driver.py")
             open(drv, "w").write(driver)
-            r = subprocess.run([PY, drv, root], cwd=root, env=dict(os.environ, PYTHONPATH=SRC), capture_output=True, text=True)
+            r = subprocess.run([PY, drv, root], cwd=root, env=dict(genv, PYTHONPATH=SRC), capture_output=True, text=True)
             chk.coverage["evaluations"] += 1
             chk.count("explorer loading", layout)
             try:
